@@ -1,15 +1,11 @@
 SPECIFICATION Spec
 CONSTANTS
   Msgs = {"a", "b", "c"}
-  TL = 2
-  ML = 2
+  TL = 1
+  ML = 0
   MaxRetries = 1
   Repaired = TRUE
   Prefetch = 2
-  FinishMode = "taken"
-INVARIANT Conservation
-INVARIANT RunningBound
-INVARIANT StartedBound
+  FinishMode = "local"
 INVARIANT AtReturn
-INVARIANT TriedBound
 CONSTRAINT Bounded
